@@ -449,6 +449,9 @@ impl<'tcx> Cx<'tcx> {
                 o.push(("tyconst", js(format!("{:?}", ct))));
                 if let Some(v) = ct.try_to_target_usize(tcx) {
                     o.push(("v", jn(v)));
+                } else if let Some(leaf) = ct.try_to_leaf() {
+                    // scalar constants of other widths (range-pattern bounds such as `0b100..=0b111` on a u8)
+                    o.push(("v", self.const_value(env, ConstValue::Scalar(Scalar::Int(leaf)), t)));
                 }
             }
         }
